@@ -14,9 +14,11 @@ _NOTE = (
 CHECKS = {
     "C03": {
         "level": "proof",
-        "text": "finite universe decided exactly: is_compatible is evaluated symbolically on the complete 64-cell abstract "
-        "domain (symbol x symbol x id-equality x order-equality) and must equal the conjugation rule; read-set, "
-        "uniqueness and constructor facts justify the abstraction",
+        "text": "finite universe decided exactly: the source of is_compatible is evaluated by a pure finite-domain evaluator on "
+        "the property's whole universe (4x4 symbols x 14x14 ids none/0..12 x 4x4 bond orders = 50176 ordered pairs) and must "
+        "equal the conjugation rule on every pair; read-set (weights cannot matter), uniqueness of the relation, the "
+        "filter built on it, and the constructor facts (symbol domain, id = int of the complete id text, bond-order table) "
+        "connect the written descriptors to that universe",
         "design_ref": "DESIGN.md §2 C03",
         "note": "trusted base: python ast, sa/formula.py + sa/guards.py (A-FINITE), Python == on str/int/enum is an equivalence",
         "technique": "static analysis: finite-domain abstract evaluation of a pure decision function + read-set / who-may-override checks on the AST",
@@ -48,9 +50,9 @@ def _mk(pid, text, tech, note_extra=""):
     }
 
 
-_mk("C05", "C05 (structural part only): single atom source, exactly one bond / edge / combination per attachment, `other` always a fresh single-node fragment (tree by induction), accessors work on copies. Sanitisation, hydrogen counts and mass additivity are NOT decided.",
+_mk("C05", "C05 (structural part only): fragment SMILES template of a token (descriptors become breaks), who may write descriptor indices, binding-atom bookkeeping, single atom source, exactly one bond / edge / combination per attachment, `other` always a fresh single-node fragment (tree by induction), accessors work on copies. Sanitisation, hydrogen counts and mass additivity are NOT decided.",
     "who-may-call over the call graph, CFG exactly-once (dominates all exits, not in a loop), provenance of call arguments")
-_mk("C06", "C06 (ordering / pairing part): element order and prefix threading, base guard dominates every attachment, start guards' meaning, reserve/restore pairing of the right-terminal descriptor, capping loop shape and pool, at least one unit, meaning of fully_generated. Termination is NOT decided.",
+_mk("C06", "C06 (ordering / pairing part): element order and prefix threading, base guard dominates every attachment, start guards' meaning, reserve/restore pairing of the right-terminal descriptor, capping loop shape and pool, at least one unit (no early return either), hand-over descriptor weight 0, left-terminal transfer, meaning of fully_generated. Termination is NOT decided.",
     "CFG dominance / post-domination, acquire-release pairing with a path-sensitive flag, guard-formula equivalence")
 _mk("C07", "C07: one draw per object (outside loops, dominating the growth loop, caller's rng, kept local), do-while shape, the stop test normalised to the linear form M(cur) − M(start) − target > 0, measured molecule is the un-finalised one, finalisation on a deep copy, finalised value returned.",
     "role-located loop, linear normal form of the exit comparison, reaching definitions of the loop-carried molecule, CFG dominance")
@@ -62,9 +64,9 @@ _mk("C13", "C13: both entry points test the system's generable before the first 
     "CFG dominance, linear normal form of the loop test, reaching-definition identity of tested / accumulated / yielded molecule")
 _mk("C14", "C14 (one information-flow condition): the backward slice of the component pick's probability vector must contain a mass-aware source (violated today: known finding KF-1, System.generator), and independently must contain every component's declared share, normalised and index-aligned. Convergence itself is statistical and NOT decided.",
     "backward slice (provenance) of the p= argument of the component pick")
-_mk("C09", "C09 (declaration → sampler wiring only): written name selects the class of that name, each text position reaches the sampler in its documented role (gauss loc/scale, uniform loc/high−low, schulz_zimm z=Mn/(Mw−Mn) & Mn, log_normal M/D, poisson mu, flory_schulz a), rvs/cdf/pmf share parameters, one unshared draw per object. The statistical law of block sizes is NOT decided.",
+_mk("C09", "C09 (declaration → sampler wiring only): written name selects the class of that name, each text position reaches the sampler in its documented role (gauss loc/scale, uniform loc/high−low, schulz_zimm z=Mn/(Mw−Mn) & Mn, log_normal M/D, poisson mu, flory_schulz a), rvs/cdf/pmf share parameters, the hand-written laws equal their documented formulas (AC normal form), law objects untruncated, draws returned unchanged, and the loop law of C07 (one draw, at least one unit, stop at the first unit beyond the target). The statistical law of block sizes is NOT decided.",
     "writer/reader table agreement, symbolic dataflow from text positions to sampler keyword roles, sibling agreement of call keywords")
-_mk("C11", "C11 (coherence of the wiring): identical shape parameters for rvs / both cdf / pmf-pdf on the same object, interval = cdf(value) − cdf(previous) with `previous` read before the addition, unknown names cannot fall through, text form ↔ parameters. Normalisation, support, means and sampler failures are NOT decided.",
+_mk("C11", "C11 (coherence of the wiring): identical shape parameters for rvs / both cdf / pmf-pdf on the same object, interval = cdf(value) − cdf(previous) with `previous` read before the addition, unknown names cannot fall through, text form ↔ parameters, the three hand-written mass / density functions compared with the documented formulas in an associative-commutative normal form (and the derived log-normal cdf / ppf if present), law objects created with their name only, a family's draw returned unchanged. Normalisation, support of SciPy's samplers, means and sampler failures are NOT decided.",
     "sibling agreement of call keywords, def-use order in the interval accumulator, CFG exit analysis of the dispatcher")
 _mk("C12", "C12 (algebra and guards): the three derived assignments of the linked setters normalise to the one relation 100·absolute = relative·system, remainder rule (definition, branch, targets), system-mass propagation to every component on the generable path, the two under-determined paths, range / consistency guards. Values over the configuration space are NOT decided.",
     "rational-monomial normal form of assignments, CFG dominance / loop-completion queries, guard-formula implication")
@@ -76,11 +78,11 @@ _mk("C16", "C16: node coverage (both element kinds, repeat and end tokens, one n
     "sibling agreement between accumulate and emit loops (conjunct sets modulo loop-variable renaming), control dependence of add_edge sites, provenance of the normalised list")
 _mk("C17", "C17: both element kinds dispatched, one node per atom of the token's own fragment with that atom's attributes, counter/offset lockstep, one static edge per bond with its order, every non-static edge control-dependent on is_compatible of exactly its two endpoint descriptors with their order and exactly one weight of the right provenance, endpoints use their own token's offset, transition-list alignment over the full descriptor list, no edge leaves an end group, targets of growth / termination / transition edges of the right kind. Completeness of edges for all molecules is NOT decided.",
     "control dependence and provenance of add_edge sites, sibling agreement over the three edge families, lockstep bookkeeping by statement order and CFG reachability")
-_mk("C18", "C18: every node id obtained from _add_node outside the static completion flows into _fill_static_edges (4 sites; the completion adds the whole residue and every static bond), every non-static bond joins the edge list's owner with a node created from the selected edge's target and carries the selected edge's order (3 sites), all picks and the draw use self.rng with weights divided by their sum, to_mol adds one atom per node and one bond per edge with its order. Termination, tree-ness and sanitisation are NOT decided.",
+_mk("C18", "C18: every node id obtained from _add_node outside the static completion flows into _fill_static_edges (4 sites; the completion adds the whole residue and every static bond), every non-static bond joins the edge list's owner with a node created from the selected edge's target and carries the selected edge's order (3 sites), all picks and the draw use self.rng with weights divided by their sum, a node that bonded clears its edge lists (3 sites), the static template takes bond orders from static edges only, to_mol adds one atom per node and one bond per edge with its order. Termination, tree-ness and sanitisation are NOT decided.",
     "def-use flow (typestate bare -> completed) with caller/callee summaries, provenance equality of selected-edge fields, rng receiver census")
-_mk("C19", "C19 (accounting structure only): masses are accumulated per element only for plain tokens and repeat units (cross-check with the generator's law), the final log-probability adds log prob_mw(interval accumulator) for exactly the stochastic elements and only for fully explored matches without open atoms, start probabilities are 1 / normalised end-group weights and are used as initial probabilities, interval = cdf(value) − cdf(previous). Equality of the numbers, the ensemble sum and atom-order invariance are NOT decided.",
+_mk("C19", "C19 (accounting structure only): masses are accumulated per element only for plain tokens and repeat units (cross-check with the generator's law), the final log-probability adds log prob_mw(interval accumulator) for exactly the stochastic elements and only for fully explored matches without open atoms, start probabilities are 1 / normalised end-group weights and are used as initial probabilities, interval = cdf(value) − cdf(previous), search copies are plain deep copies. Equality of the numbers, the ensemble sum and atom-order invariance are NOT decided.",
     "control dependence of accumulation sites on element / token kind, provenance of the product terms, def-use order in the interval accumulator")
-_mk("C20", "C20: argument-role dataflow of the force-field cache (constructor roles, key pairs, both names in the key), readers' roles, partial molecules refused before typing, hydrogens added, dedicated error built from the partial dictionary with the molecule attached and re-raised, one parameter set per matched atom, typing and look-ups are read-only on the assigner (effect analysis), None → bundled files shipped as package data. Element-consistent masses and numbering independence are NOT decided.",
+_mk("C20", "C20: argument-role dataflow of the force-field cache (constructor roles, key pairs, both names in the key), readers' roles, partial molecules refused before typing, hydrogens added, dedicated error built from the partial dictionary with the molecule attached and re-raised, one parameter set per matched atom, typing and look-ups are read-only on the assigner (effect analysis), type ids injective and the look-up chain rule → type → id → parameters intact, None → bundled files shipped as package data. Element-consistent masses and numbering independence are NOT decided.",
     "argument-role dataflow through module variables, CFG dominance of guards, inter-procedural effect analysis, package-data census")
 
 NOT_APPLICABLE = {}
